@@ -128,6 +128,14 @@ func (e *Engine) makeCtx(ti, opIdx int, gid uint64, idx int) context.Context {
 	spec := e.Plan.Ctxs[idx]
 	var ctx context.Context
 	var cancel context.CancelFunc
+	if pe := e.preCtx[ti<<20|opIdx]; pe != nil {
+		// created by the controller before this thread existed (race build)
+		a := arrival{gid: gid, site: SiteCtxMade, task: ti, opIdx: opIdx, ctxIdx: idx}
+		if r := e.park(&a); r.action != actProceed {
+			panic(unwindSentinel{})
+		}
+		return pe.ctx
+	}
 	switch spec.Kind {
 	case "cancel":
 		ctx, cancel = context.WithCancel(context.Background())
